@@ -80,6 +80,13 @@ def interpret(data, deflate=None):
                     v = "nothing_to_continue"
                 if v is None and hf.opcode in (wire.TEXT, wire.BINARY) and cur is not None:
                     v = "expected_continuation"
+                if v is None and not deflate and not hf.masked and (
+                        hf.opcode == wire.TEXT or (hf.opcode == wire.CONT and cur is not None and cur[0] == wire.TEXT)):
+                    # fail-fast: the part of the text payload that has arrived may already be invalid
+                    hdr = 2 + {7: 0, 16: 2, 64: 8}[hf.form]
+                    sofar = (b"".join(cur[2]) if (cur is not None and hf.opcode == wire.CONT) else b"") + data[pos + hdr:]
+                    if utf8ref.first_offending_index(sofar) is not None:
+                        v = "text_bad_utf8"
                 it.early = v
             break
         it.frames.append(f)
@@ -142,7 +149,12 @@ def interpret(data, deflate=None):
         if rsv1:
             try:
                 payload = inflater.decompress(payload + b"\x00\x00\xff\xff")
-                if inflater.eof or deflate.get("server_nct"):
+                if inflater.eof or inflater.unused_data:
+                    # a block with BFINAL set / bytes after the end of the deflate stream:
+                    # RFC 7692 leaves the receiver's duty open and the property does not fix it
+                    it.unspecified = True
+                    return it
+                if deflate.get("server_nct"):
                     inflater = zlib.decompressobj(-15)
             except zlib.error:
                 it.violation, it.violation_at, it.violation_frame = "bad_deflate", first_start, f
